@@ -18,6 +18,9 @@
 //	      (where-field := integer alphabet + ids of the chain's own elements)
 //	      x (how-many-field := integer alphabet); the compound-file seeds also
 //	      in a variant whose FAT sector list continues in an MSAT sector chain,
+//	(vi') both tiers: structures that couple more than two fields of one header
+//	      (code directory: hashSize x hashType x nSpecialSlots x nCodeSlots x
+//	      pageSize) - the full product of a tiny per-field alphabet (tuples.go),
 //	(vii) both tiers: text-valued fields of ZIP-based packages (member names,
 //	      JAR manifest / signature-file attribute values) x the text alphabet
 //	      (one byte of every UTF-8 class, separators, well-formed multi-byte
@@ -31,6 +34,10 @@
 //	      all elements of a kind at once, and the container re-encoded around
 //	      them with correct lengths and checksums (mutate/docedit.go,
 //	      xaredit.go),
+//
+//	(ix)  both tiers, run as is: VALID archives whose structure boundaries lie on,
+//	      one before, one behind a block boundary of the format's own digest
+//	      scheme and on the second one (APK v2: 1 MiB), unsigned and signed (align.go),
 //
 // and runs every mutated input through every parser entry point of its kind in
 // rlimited worker subprocesses. Oracle: no panic (any goroutine), no process
@@ -491,6 +498,23 @@ func (e *engine) enumerate() {
 			// group the format defines, both tiers
 			st.Couples = coupleStats(cs)
 			addCouples(set, len(s.data), cs)
+			// (vi') structures that couple more than two fields of one header: the full
+			// product of a tiny alphabet over all of them (tuples.go), both tiers
+			var tg []tupleGroup
+			if s.Kind == "tar" {
+				tg = tarTuples(s)
+			} else {
+				tg = tuples(s.data, s.Layout)
+			}
+			if ts := tupleStats(tg); ts != "" {
+				st.Couples += " | full products: " + ts
+			}
+			tupleFirst := len(set.List)
+			addTuples(set, tg)
+			tupleSpecs := map[string]bool{}
+			for _, m := range set.List[tupleFirst:] {
+				tupleSpecs[m.Spec()] = true
+			}
 			// (vii), (viii) text-valued fields and decoded metadata documents,
 			// re-encoded into a container that is valid but for the edit (structured.go)
 			if !coupledOnly && os.Getenv("C11_NO_STRUCT") == "" {
@@ -532,7 +556,11 @@ func (e *engine) enumerate() {
 				if len(m.Splices) > 0 {
 					spec = m.LabelledSpec() // a structured edit says what it edited
 				}
-				if cls := os.Getenv("C11_ONLY_CLASS"); cls != "" && (len(m.Splices) > 0) != (cls == "struct") {
+				if cls := os.Getenv("C11_ONLY_CLASS"); cls == "tuple" {
+					if !tupleSpecs[m.Spec()] {
+						continue
+					}
+				} else if cls != "" && (len(m.Splices) > 0) != (cls == "struct") {
 					continue
 				}
 				e.cases = append(e.cases, caseT{int32(s.Idx), mask, spec})
@@ -1273,7 +1301,7 @@ func (e *engine) handleHang(id, entry int, stderr string) {
 	seed := e.seeds[e.cases[id].seed]
 	size := e.inputSize(id)
 	e.run.Eval(1)
-	if size > hangInputMax {
+	if size > hangInputMax && !(seed.ValidInput && e.cases[id].spec == "I") {
 		e.run.Outcome(entryClass(ename) + ":timeout-large-input")
 		atomic.StoreInt32(&e.capped, 1)
 		return
@@ -1489,29 +1517,32 @@ func (e *engine) report() {
 	}
 	run.Set("slowest_entries", slow)
 	run.Set("bounds", map[string]any{
-		"byte_alphabet":        "{0x00,0xff,0x7f,0x80,b+1,b-1} at every structural offset",
-		"int_alphabet":         "{0,1,0x7fffffff,0x80000000,0xffffffff,v+1,v-1,v*2,filesize,filesize+1} (16-bit fields: 0x7fff,0x8000,0xffff) at every aligned 16/32-bit position, LE and BE",
-		"int_positions":        map[bool]string{false: "quick: positions whose current value v satisfies 0 < v < 2*filesize (plausible length/offset/count fields)", true: "thorough: every aligned position"}[thorough],
-		"structural_regions":   map[bool]string{false: "quick: seeds <= 1 KiB: every offset; larger: first 128, last 128 bytes and the Core field windows (magics, counts, sizes, offsets) of the format's structures", true: "thorough: seeds <= 8 KiB: every offset; larger: first 2 KiB, last 2 KiB and the format's structures"}[thorough] + "  (zip records, PE headers + certificate table, CFB header/FAT/directory sectors, ar headers, DER TLV headers to depth 5, xar header/TOC, koly trailer + code signature, Mach-O load commands, rpm header indexes, XML signature elements); packed formats use the record start as alignment origin",
-		"truncation":           map[bool]string{false: "quick: every prefix length for seeds <= 1 KiB; larger seeds: every length inside or at the end of a quick region plus every 64th length", true: "thorough: every prefix length for seeds <= 64 KiB; larger seeds: every length inside or at the end of a structural region plus every 16th length"}[thorough],
-		"tar":                  "every header field x per-field alphabet with recomputed checksum; whole-stream variants swap/duplicate/drop/trailing member, missing EOF blocks, pax override; byte and integer mutations of small member bodies (central directory copy) and of the inner format structures",
-		"pairs":                map[bool]string{false: "none in quick", true: "all pairs of LE field mutations among the first 40 plausible fields in the first 512 bytes of seeds <= 2 KiB"}[thorough],
-		"coupled_fields":       fmt.Sprintf("both tiers (quick: also for the package seeds <= 256 KiB that are otherwise thorough-only, which then get these mutations and the single-field mutations of the same fields only): per seed, every group of coupled fields of its format (see coupled_field_groups per seed; chains: the start field and the link fields of the first %d elements): all pairs (where-field := integer alphabet + the ids of the chain's first %d elements) x (count/length field := integer alphabet); formats: CFB (MSAT, mini-FAT and directory chains, FAT list, directory entries), ZIP (end record, first central header, APK signing block), PE, CAB, XAR, UDIF + code signature, Mach-O, RPM, and the same inside upload-tar members", coupleMaxChain, coupleMaxChain),
-		"text_fields":          structTextBounds(thorough),
-		"decoded_documents":    structDocBounds(thorough),
-		"server":               fmt.Sprintf("real daemon in a child process (RLIMIT_AS 4 GiB); bodies: per (seed, sign entry, outcome class + normalised error text / panic site) the first enumerated input whose entry ended regularly within the allocation bound; each body followed by one well-formed request; the phase stops after %d dead servers; request timeout = hang bound", serverMaxDeaths),
-		"alloc_bound":          "heap (HeapSys) growth in a fresh worker > 64 MiB + 64 x input size; screened by TotalAlloc per entry",
-		"hang_bound_s":         hangTimeout.Seconds(),
-		"address_space_limit":  "RLIMIT_AS 4 GiB per worker, GOMEMLIMIT unset",
-		"enumerated_inputs":    len(e.cases),
-		"executed_inputs":      executed,
-		"worker_processes":     atomic.LoadInt64(&e.wseq),
-		"entry_points_by_kind": kindEntries,
+		"byte_alphabet":                "{0x00,0xff,0x7f,0x80,b+1,b-1} at every structural offset",
+		"int_alphabet":                 "{0,1,0x7fffffff,0x80000000,0xffffffff,v+1,v-1,v*2,filesize,filesize+1} (16-bit fields: 0x7fff,0x8000,0xffff) at every aligned 16/32-bit position, LE and BE",
+		"int_positions":                map[bool]string{false: "quick: positions whose current value v satisfies 0 < v < 2*filesize (plausible length/offset/count fields)", true: "thorough: every aligned position"}[thorough],
+		"structural_regions":           map[bool]string{false: "quick: seeds <= 1 KiB: every offset; larger: first 128, last 128 bytes and the Core field windows (magics, counts, sizes, offsets) of the format's structures", true: "thorough: seeds <= 8 KiB: every offset; larger: first 2 KiB, last 2 KiB and the format's structures"}[thorough] + "  (zip records, PE headers + certificate table, CFB header/FAT/directory sectors, ar headers, DER TLV headers to depth 5, xar header/TOC, koly trailer + code signature, Mach-O load commands, rpm header indexes, XML signature elements); packed formats use the record start as alignment origin",
+		"truncation":                   map[bool]string{false: "quick: every prefix length for seeds <= 1 KiB; larger seeds: every length inside or at the end of a quick region plus every 64th length", true: "thorough: every prefix length for seeds <= 64 KiB; larger seeds: every length inside or at the end of a structural region plus every 16th length"}[thorough],
+		"tar":                          "every header field x per-field alphabet with recomputed checksum; whole-stream variants swap/duplicate/drop/trailing member, missing EOF blocks, pax override; byte and integer mutations of small member bodies (central directory copy) and of the inner format structures",
+		"pairs":                        map[bool]string{false: "none in quick", true: "all pairs of LE field mutations among the first 40 plausible fields in the first 512 bytes of seeds <= 2 KiB"}[thorough],
+		"coupled_fields":               fmt.Sprintf("both tiers (quick: also for the package seeds <= 256 KiB that are otherwise thorough-only, which then get these mutations and the single-field mutations of the same fields only): per seed, every group of coupled fields of its format (see coupled_field_groups per seed; chains: the start field and the link fields of the first %d elements): all pairs (where-field := integer alphabet + the ids of the chain's first %d elements) x (count/length field := integer alphabet); formats: CFB (MSAT, mini-FAT and directory chains, FAT list, directory entries), ZIP (end record, first central header, APK signing block), PE, CAB, XAR, UDIF + code signature, Mach-O, RPM, and the same inside upload-tar members", coupleMaxChain, coupleMaxChain),
+		"coupled_field_products":       fmt.Sprintf("both tiers, same seeds as coupled_fields: per code directory (CS_CodeDirectory reached through the first 3 index entries of the embedded-signature superblob of a DMG, a Mach-O image, every architecture of a universal binary, and the same inside upload-tar members) the FULL product over the five fields the specification couples through slot-array size = (nSpecialSlots + nCodeSlots) x hashSize, hashSize = f(hashType), nCodeSlots = ceil(codeLimit / 2^pageSize): hashSize {0,1,seed value,0xff} x hashType {0..5 = every value cs_blobs.h defines, seed value, 0xff} x nSpecialSlots {0,1,seed value,0xffffffff} x nCodeSlots {0,1,seed value,0xffffffff} x pageSize {0,1,seed value,0xff}; every single, pair, triple, quadruple and quintuple of these is contained; at most %d elements per structure (see 'full products' per seed, class 'tuple' in enumerated_by_class)", tupleMaxProduct),
+		"block_aligned_valid_archives": fmt.Sprintf("both tiers, run as is through every entry point (verify, verify without digests, is-signed, transform, sign = transform + server-side Sign; the sign outcome is also sent to the daemon): APK-shaped stored zip of two members (zero filler in the first), for every boundary X in %v x every target T in %v (block size 1 MiB of APK Signature Scheme v2, whose three protected sections are chunked separately) one unsigned archive and one archive signed by the real pipeline with X at file offset T; positions measured on the finished archive with archive/zip and a trailer walk (not by relic), seeds whose measurement differs are not added (seed_notes says so); these seeds are valid inputs (valid_input): an entry that does not return within the hang bound on them is confirmed alone three times and reported although they exceed %d KiB; signing while the seeds are built is capped at %s per archive (reaching the cap is a seed note, the unsigned archive's sign entry decides)", alignBoundaries, alignTargets(apkBlock), hangInputMax>>10, alignSignCap),
+		"text_fields":                  structTextBounds(thorough),
+		"decoded_documents":            structDocBounds(thorough),
+		"server":                       fmt.Sprintf("real daemon in a child process (RLIMIT_AS 4 GiB); bodies: per (seed, sign entry, outcome class + normalised error text / panic site) the first enumerated input whose entry ended regularly within the allocation bound; each body followed by one well-formed request; the phase stops after %d dead servers; request timeout = hang bound", serverMaxDeaths),
+		"alloc_bound":                  "heap (HeapSys) growth in a fresh worker > 64 MiB + 64 x input size; screened by TotalAlloc per entry",
+		"hang_bound_s":                 hangTimeout.Seconds(),
+		"address_space_limit":          "RLIMIT_AS 4 GiB per worker, GOMEMLIMIT unset",
+		"enumerated_inputs":            len(e.cases),
+		"executed_inputs":              executed,
+		"worker_processes":             atomic.LoadInt64(&e.wseq),
+		"entry_points_by_kind":         kindEntries,
 	})
-	run.Rule("case = (seed, mutation) de-duplicated by effect (mutations producing identical bytes count once; no-ops dropped); every case is run through every entry point of its kind, each (case, entry) execution is one evaluation. distinct_nontrivial = cases whose tuple of per-entry outcomes (ok / not-signed / normalised error text / panic site / abnormal end) differs from the tuple of the unmutated seed, i.e. the mutation moved at least one entry point onto a different path. Structured edits (classes text:* and doc:*) are mutations too: the value of one text field (ZIP member name, manifest attribute) := one element of units x lengths x placements, or one element-level edit of a decoded metadata document, each written back into a container whose lengths, offsets and checksums are recomputed by the harness (independent of relic: hash/crc32, compress/flate, compress/zlib, the lexer of gen/xmlgen); they go through the same entry points, signing included, and count as non-trivial by the same rule. Server phase: case = one upload stream per (seed, sign entry, distinct outcome) sent to a real daemon process and followed by a well-formed signing request; one evaluation each; non-trivial when the daemon answers the stream with a status other than 2xx; the oracle is the statement's: the process must not end and must answer the request that follows")
+	run.Rule("case = (seed, mutation) de-duplicated by effect (mutations producing identical bytes count once; no-ops dropped); every case is run through every entry point of its kind, each (case, entry) execution is one evaluation. distinct_nontrivial = cases whose tuple of per-entry outcomes (ok / not-signed / normalised error text / panic site / abnormal end) differs from the tuple of the unmutated seed, i.e. the mutation moved at least one entry point onto a different path. Structured edits (classes text:* and doc:*) are mutations too: the value of one text field (ZIP member name, manifest attribute) := one element of units x lengths x placements, or one element-level edit of a decoded metadata document, each written back into a container whose lengths, offsets and checksums are recomputed by the harness (independent of relic: hash/crc32, compress/flate, compress/zlib, the lexer of gen/xmlgen); they go through the same entry points, signing included, and count as non-trivial by the same rule. Class tuple: one element of the full product of per-field alphabets over all fields that one header couples through a product (code directory hash geometry), see bounds.coupled_field_products. Seeds named aligned.apk:* are valid archives with one structure boundary placed on / next to a digest-block boundary (bounds.block_aligned_valid_archives); each is one case (the identity) run through every entry point, and the oracle is the same (a result or an error, within the allocation and hang bounds). Server phase: case = one upload stream per (seed, sign entry, distinct outcome) sent to a real daemon process and followed by a well-formed signing request; one evaluation each; non-trivial when the daemon answers the stream with a status other than 2xx; the oracle is the statement's: the process must not end and must answer the request that follows")
 	run.Assume("the module a byte string is presented to is the seed's module (the server takes sigtype from the request, `relic sign -T` from the command line); magic detection is exercised as its own entry point")
 	run.Assume("server phase: the daemon listens without TLS on loopback and takes the client certificate from a trusted proxy's Ssl-Client-Cert header (a deployment relic supports); the handler chain and the http.Server timeouts are the ones daemon.New builds from the configuration defaults. A body whose sign entry died, hung or broke the allocation bound in the engine is reported under the engine's key and not sent to the daemon")
 	run.Assume("text fields and decoded documents: the fields of ZIP-based packages (jar, apk, xap, appx, vsix) and of xar are covered; names in the other containers are fixed-width or NUL-terminated fields inside regions the byte and integer classes already cover (CFB directory entries, ar headers, CAB CFFILE, tar headers through the tar field alphabet); the DMG property list is stored uncompressed (byte classes) and carries a DOCTYPE the document lexer does not handle")
+	run.Assume("block-aligned valid archives: the first member's data cannot start on a 1 MiB boundary (a local header is shorter than 30 + 65535 + 65535 bytes) and block boundaries relative to the start of the central directory need a directory of 1 MiB; neither is generated. The 64 KiB blocks of the APPX block map and the 4 KiB pages of code directories are not part of this family: those schemes are exercised only with the block layouts the functest seeds happen to have")
 	run.Assume("goroutines that stay blocked after an entry returns are leaks, not crashes, and are out of scope")
 	run.Assume("certloader.ParsePKCS12 is not an entry point here: its cost is governed by the KDF iteration count inside the third-party decoder; PKCS#12 seeds are fed to ParseX509Certificates / ParseAnyPrivateKey")
 	run.Assume("Transformer.Apply (patching the result into the mutated file) is not exercised here (C12/C13)")
